@@ -325,6 +325,48 @@ def run(world, rep, tier, only=None):
             rep.ob("C03.e", site(runf, "needs_recovery cleared after recovery" + tag), runf.exit_node() not in rr,
                    "every path from recover_ext3_journal to return (reopen succeeded) passes *_clear_recover")
 
+    # ------------------------------------------------------------------ C03.j transaction numbers are compared modulo 2^32
+    # Commit IDs are 32-bit serial numbers that wrap (jbd2 starts a journal at a random one).  "Later than" is decided
+    # on the 32-bit difference read as signed: the value compared with 0 in tid_gt()/tid_geq() has a 32-bit signed type
+    # and is the plain difference of the two 32-bit arguments - widened operands give the ordering of integers, under
+    # which everything after the wrap is "earlier" and the scan ends before the first transaction is replayed.
+    W32 = ("int", "__s32", "s32", "int32_t", "signed int")
+    n_tid = 0
+    seen_tid = set()
+    for pn in ("e2fsck", "debugfs"):
+        pp_ = world.program(pn, plain=True)
+        for f in pp_.functions():
+            if f.name not in ("tid_gt", "tid_geq") or (f.file, f.name) in seen_tid:
+                continue
+            seen_tid.add((f.file, f.name))
+            n_tid += 1
+            types = {l_["n"]: l_.get("t", "") for l_ in f.raw.get("locals", []) + f.raw.get("params", [])}
+            ok = False
+            why = "no comparison with 0 found"
+            for r_ in f.events("R"):
+                x = T.strip(r_.ev.get("x") or {})
+                if not (isinstance(x, dict) and x.get("k") == "b" and x.get("o") in (">", ">=", "<", "<=")):
+                    continue
+                v = T.strip(x.get("l")) if T.const(x.get("r")) == 0 else T.strip(x.get("r"))
+                if not (isinstance(v, dict) and v.get("k") == "v"):
+                    # written without a local, e.g. `(int)(x - y) > 0`: the width is that of the cast, which the facts
+                    # carry on the unstripped node; anything not recognised is not judged
+                    raw = x.get("l") if T.const(x.get("r")) == 0 else x.get("r")
+                    t_ = raw.get("t", "") if isinstance(raw, dict) and raw.get("k") == "cast" else None
+                    ok = t_ is None or t_.strip() in W32
+                    why = "compared expression `%s` (cast to `%s`)" % (T.pp(raw)[:30], t_)
+                    continue
+                defs = [n for n in f.events("S") if T.path(n.ev["lhs"]) == v["n"]]
+                plain = all(isinstance(T.strip(n.ev.get("rhs") or {}), dict) and T.strip(n.ev["rhs"]).get("k") == "b" and
+                            T.strip(n.ev["rhs"]).get("o") == "-" and
+                            all(isinstance(T.strip(T.strip(n.ev["rhs"]).get(sd)), dict) and T.strip(T.strip(n.ev["rhs"]).get(sd)).get("k") == "v"
+                                and T.strip(T.strip(n.ev["rhs"]).get(sd)).get("s") == "p" for sd in ("l", "r"))
+                            for n in defs) and bool(defs)
+                ok = types.get(v["n"], "").strip() in W32 and plain
+                why = "`%s` has type `%s`; it is the plain difference of the arguments: %s" % (v["n"], types.get(v["n"]), plain)
+            rep.ob("C03.j", site(f, "32-bit serial-number comparison"), ok, why)
+    rep.floor("C03.j transaction-number comparators", n_tid, 2)
+
     # ------------------------------------------------------------------ C03.f front-end agreement
     pe, pd = world.program("e2fsck"), world.program("debugfs")
     PAIRS = [("getblk", "getblk"), ("sync_blockdev", "sync_blockdev"), ("ll_rw_block", "ll_rw_block"),
